@@ -97,6 +97,15 @@ impl StreamContext {
         info!("finished execution");
     }
 
+    /// Build the execution graph of the registered streams as this host sees it, without starting
+    /// the computation (verification hook).
+    #[cfg(feature = "verif")]
+    pub fn verif_execution_graph(self) -> serde_json::Value {
+        let mut env = self.inner.lock();
+        let mut scheduler = env.scheduler.take().unwrap();
+        scheduler.verif_graph()
+    }
+
     /// Get the total number of processing cores in the cluster.
     pub fn parallelism(&self) -> CoordUInt {
         match &self.inner.lock().config {
